@@ -13,28 +13,29 @@ type C14Case struct {
 }
 
 type C14Obs struct {
-	SetupErr      string `json:"setupErr"`
-	StartErr      string `json:"startErr"`
-	StartReturned bool   `json:"startReturned"`
-	RetryOK       bool   `json:"retryOk,omitempty"` // after a failed Start: a second Start on the same client succeeded
-	RetryErr      string `json:"retryErr,omitempty"`
-	RetryProtocol string `json:"retryProtocol,omitempty"`
-	IsMuxErr      bool   `json:"isMuxErr"`
-	IsSecureErr   bool   `json:"isSecureErr"`
-	Pid           int    `json:"pid"`
-	StateAfterErr string `json:"stateAfterErr"`
-	Protocol      string `json:"protocol"`
-	ClientErr     string `json:"clientErr"`
-	PingErr       string `json:"pingErr"`
-	CallErr       string `json:"callErr"`
-	Tag           string `json:"tag"`
-	H2PErr        string `json:"h2pErr"`
-	P2HErr        string `json:"p2hErr"`
-	BigErr        string `json:"bigErr"`
-	BigLen        int    `json:"bigLen"`
-	UnknownErr    string `json:"unknownErr"` // error of Dispense("no-such-plugin")
-	UnknownNil    bool   `json:"unknownNil"` // it returned (nil, nil)
-	Hung          string `json:"hung"`
-	KillReturned  bool   `json:"killReturned"`
-	Panic         string `json:"panic"`
+	SetupErr       string `json:"setupErr"`
+	StartErr       string `json:"startErr"`
+	StartReturned  bool   `json:"startReturned"`
+	RetryOK        bool   `json:"retryOk,omitempty"` // after a failed Start: a second Start on the same client succeeded
+	RetryErr       string `json:"retryErr,omitempty"`
+	RetryProtocol  string `json:"retryProtocol,omitempty"`
+	IsMuxErr       bool   `json:"isMuxErr"`
+	IsSecureErr    bool   `json:"isSecureErr"`
+	Pid            int    `json:"pid"`
+	StateAfterErr  string `json:"stateAfterErr"`
+	Protocol       string `json:"protocol"`
+	ClientErr      string `json:"clientErr"`
+	PingErr        string `json:"pingErr"`
+	CallErr        string `json:"callErr"`
+	Tag            string `json:"tag"`
+	H2PErr         string `json:"h2pErr"`
+	P2HErr         string `json:"p2hErr"`
+	BigErr         string `json:"bigErr"`
+	BigLen         int    `json:"bigLen"`
+	BigBrokeredErr string `json:"bigBrokeredErr,omitempty"` // (gRPC) 5 MiB responses on brokered connections, both directions
+	UnknownErr     string `json:"unknownErr"`               // error of Dispense("no-such-plugin")
+	UnknownNil     bool   `json:"unknownNil"`               // it returned (nil, nil)
+	Hung           string `json:"hung"`
+	KillReturned   bool   `json:"killReturned"`
+	Panic          string `json:"panic"`
 }
